@@ -540,6 +540,7 @@ def check_C10(v, tier, seed):
 
     # first use of the library in a fresh process, under single faults and descriptor exhaustion
     init = {"runs": 0, "panics": 0, "killed": 0, "first_ok": 0, "first_err": 0, "retried_ok_after_failed_init": 0}
+    base_hist = {}
     for label, extra in (("openat2", []), ("enosys", ["--no-openat2"])):
         if tier != "thorough" and label == "enosys":
             continue
@@ -547,6 +548,10 @@ def check_C10(v, tier, seed):
         run_harness(["fault-init"] + extra, out)
         for line in open(out):
             t = line.split()
+            if len(t) >= 3 and t[0] == "init" and t[1] == "base":
+                sig = next((x[5:] for x in t if x.startswith("sig2=")), None)
+                if sig is not None:
+                    base_hist[label] = dict((a.split(":")[0], int(a.split(":")[1])) for a in sig.split(",") if ":" in a)
             if len(t) < 3 or t[0] != "init" or t[1] == "base":
                 continue
             init["runs"] += 1
@@ -563,6 +568,21 @@ def check_C10(v, tier, seed):
                 init["first_err"] += 1
                 if any(x == "second=ok" for x in t):
                     init["retried_ok_after_failed_init"] += 1
+            # fails closed for the rest of the process: the verification calls (mount id, filesystem type) that an
+            # unfaulted process makes in a later lookup are still made after a fault at first use — a fault must not
+            # switch checks off for later calls (more of them is fine: re-initialisation, the emulated procfs resolver)
+            sig = next((x[5:] for x in t if x.startswith("sig2=")), None)
+            if sig is not None:
+                hist = dict((a.split(":")[0], int(a.split(":")[1])) for a in sig.split(",") if ":" in a)
+                if t[1] == "base":
+                    base_hist[label] = hist
+                elif not bad and any(x == "second=ok" for x in t) and label in base_hist:
+                    for kind in ("statx", "fstatfs"):
+                        if hist.get(kind, 0) < base_hist[label].get(kind, 0):
+                            bad = (f"after a fault at first use a later lookup makes {hist.get(kind, 0)} {kind} calls where a process "
+                                   f"that never saw the fault makes {base_hist[label].get(kind, 0)}: a check was switched off for the rest of the process")
+                            init["checks_switched_off"] = init.get("checks_switched_off", 0) + 1
+                            break
             if bad:
                 facts = {"kind": "oracle", "oracle": bad, "suite": "fault-init", "line": line.strip()[:300]}
                 v.fail(facts, {"why": "first-use initialisation under an injected fault: " + bad, "case": {"line": line.strip()}})
